@@ -48,14 +48,18 @@ def main():
             continue
         try:
             results = {}
+            hits = {}
             for check in targets:
                 code, out = sh("./check %s --tier quick" % check, cwd=VERIF, env=env)
                 results[check] = code
+                # the checks print at most five VIOLATION lines: 1-2 means a thin margin
+                hits[check] = sum(1 for l in out.splitlines() if l.startswith("VIOLATION"))
         finally:
             code, out = sh("git apply -R --whitespace=nowarn %s" % patch, cwd=repo)
             assert code == 0, out
         lost = [c for c, r in results.items() if r != 1]
-        print("%s: %s%s" % (mid, " ".join("%s=%d" % kv for kv in sorted(results.items())),
+        print("%s: %s%s" % (mid, " ".join("%s=%d(%d)" % (c, r, hits[c])
+                                          for c, r in sorted(results.items())),
                             ("  LOST: " + ",".join(lost)) if lost else ""))
         sys.stdout.flush()
         if lost:
